@@ -86,7 +86,7 @@ theorem scanStep_spec (cfg : Cfg) (hd : cfg.d ≠ .go) (fuel : Nat) (hF : src.si
             apply finish_spec cfg false hu (c.good a1) h00 (by rw [c.front a1]; omega)
               (Or.inl ⟨rfl, hoff⟩) c.ws
             rw [c.front a1]
-            exact TokOK.auto (Or.inr ⟨rfl, rfl⟩) (Or.inl (by simp only; omega))
+            exact TokOK.auto (Or.inr ⟨rfl, rfl, hoff⟩) (Or.inl (by simp only; omega))
         · intro heof
           have hlt1 := next_off_lt hi heof
           have hsz : st.off < src.size := by have := hi.adv heof; have := hi.rd_le; omega
@@ -159,13 +159,13 @@ theorem scanStep_spec (cfg : Cfg) (hd : cfg.d ≠ .go) (fuel : Nat) (hF : src.si
                         simp [hlt2, hpeek]
                       obtain ⟨s3, e3, _⟩ := slice_snoc (next_inv a1.inv) (by omega : st.off ≤ (next src (next src st)).off) hpk (by omega)
                       apply fin _ _ _ _ _ (a1.thenNext.thenNext) ⟨rfl, rfl, rfl, rfl, rfl⟩ (by omega)
-                      apply TokOK.op _ (by simp only; omega) (Or.inl rfl)
+                      apply TokOK.op _ (by simp only; omega) (Or.inl rfl) (okOpTok_spec (hand_ops_ok cfg.d hd).2.2).1 (okOpTok_spec (hand_ops_ok cfg.d hd).2.2).2
                       simp only
                       rw [s3, s2, s1, spelling_ellipsis cfg.d hd]
                       rfl
                     · intro _
                       apply fin _ _ _ _ _ a1 ⟨rfl, rfl, rfl, rfl, rfl⟩ (by omega)
-                      apply TokOK.op _ (by simp only; omega) (Or.inl rfl)
+                      apply TokOK.op _ (by simp only; omega) (Or.inl rfl) (okOpTok_spec (hand_ops_ok cfg.d hd).2.1).1 (okOpTok_spec (hand_ops_ok cfg.d hd).2.1).2
                       simp only
                       rw [s1, spelling_period cfg.d hd]
                       rfl
@@ -175,8 +175,9 @@ theorem scanStep_spec (cfg : Cfg) (hd : cfg.d ≠ .go) (fuel : Nat) (hF : src.si
                       intro hsc
                       obtain ⟨s1, e1, _⟩ := slice_snoc hi (Nat.le_refl _) hsc (by omega)
                       rw [slice_self, List.nil_append] at s1
-                      apply fin (next src st) _ _ _ _ a1 ⟨rfl, rfl, rfl, rfl, rfl⟩ (by omega)
-                      apply TokOK.op _ (by simp only; omega) (Or.inr ⟨rfl, rfl⟩)
+                      refine fin (next src st) _ _ _ _ a1 ?_ (by omega) ?_
+                      · exact ⟨rfl, rfl, rfl, rfl, rfl⟩
+                      apply TokOK.op _ (by simp only; omega) (Or.inr ⟨rfl, rfl⟩) (okOpTok_spec (hand_ops_ok cfg.d hd).1).1 (okOpTok_spec (hand_ops_ok cfg.d hd).1).2
                       simp only
                       rw [s1, spelling_semicolon cfg.d hd]
                       rfl
@@ -198,10 +199,12 @@ theorem scanStep_spec (cfg : Cfg) (hd : cfg.d ≠ .go) (fuel : Nat) (hF : src.si
                             obtain ⟨s1, e1, _⟩ := slice_snoc hi (Nat.le_refl _) rfl hlt
                             rw [slice_self, List.nil_append] at s1
                             have hw := walk_adv (src := src) t (next src st) a1.inv
-                            apply fin (walk src t (next src st)).1 _ _ _ _ (a1.trans hw) ⟨rfl, rfl, rfl, rfl, rfl⟩ (by have := hw.off_le; omega)
-                            apply TokOK.op _ (by simp only; have := hw.off_le; omega) (Or.inl rfl)
+                            refine fin (walk src t (next src st)).1 _ _ _ _ (a1.trans hw) ?_ (by have := hw.off_le; omega) ?_
+                            · exact ⟨rfl, rfl, rfl, rfl, rfl⟩
+                            have hsp' := hsp (next src st) st.off a1.inv (by omega) s1
+                            apply TokOK.op _ (by simp only; have := hw.off_le; omega) (Or.inl rfl) (okOpTok_spec hsp'.2).1 (okOpTok_spec hsp'.2).2
                             simp only
-                            exact hsp (next src st) st.off a1.inv (by omega) s1
+                            exact hsp'.1
                           · -- illegal character
                             have key : ∀ st2 : St, SameBut (next src st) st2 →
                                 StepSpec cfg src st0 (finish cfg st2 st.off (codes cfg.d).ILLEGAL (encodeRune st.ch) st2.insertSemi).1
@@ -220,32 +223,32 @@ theorem scanStep_spec (cfg : Cfg) (hd : cfg.d ≠ .go) (fuel : Nat) (hF : src.si
   · -- a unit is pending: it is the token
     simp only [hu, if_false, ne_eq, not_false_eq_true, if_true]
     obtain ⟨e, ht⟩ := finish_fst cfg { st0 with unitVal := [] } (st0.off - st0.unitVal.length) (codes cfg.d).UNIT st0.unitVal true
+    have hf1 : frontier { st0 with unitVal := [] } = st0.off := by simp [frontier]
+    rw [hf1] at ht
     rw [ht]
     generalize (finish cfg { st0 with unitVal := [] } (st0.off - st0.unitVal.length) (codes cfg.d).UNIT st0.unitVal true).1 = st' at e ⊢
+    have eoff : st'.off = st0.off := e.off
+    have eunit : st'.unitVal = [] := e.unit
     have hlen : 1 ≤ st0.unitVal.length := by
       cases hl : st0.unitVal with
       | nil => exact absurd hl hu
       | cons a t => simp
     have hul := hg.ulen
     have hsz := hg.inv.off_le_size
-    have hfe : frontier st' = st0.off := by
-      unfold frontier; rw [e.off, e.unit]; simp
-    have hf1 : frontier { st0 with unitVal := [] } = st0.off := by unfold frontier; simp
-    refine ⟨⟨hg.inv.congr e.ch e.off e.rdOff, e.fail.trans hg.ok, by rw [e.unit]; simp, by rw [e.unit]; simp [slice_self]⟩,
-      by rw [hfe]; unfold frontier; omega, Or.inr ?_, ?_, by intro h; cases h⟩
-    · have h1 := mu_le_of_same (src := src) e
-      simp only [if_true] at h1
-      unfold mu
-      simp only [hu, if_false]
-      split <;> omega
+    have hfe : frontier st' = st0.off := by simp [frontier, eoff, eunit]
+    have hf0 : frontier st0 = st0.off - st0.unitVal.length := rfl
+    refine ⟨⟨hg.inv.congr e.ch e.off e.rdOff, e.fail.trans hg.ok, by rw [eunit]; simp, by rw [eunit]; simp [slice_self]⟩,
+      by rw [hfe, hf0]; omega, Or.inr ?_, ?_, by intro h; cases h⟩
+    · have h1 : mu src st' ≤ 2 * (src.size - st0.off) + 1 := by
+        unfold mu; rw [eoff, eunit]; simp only [if_true]; split <;> omega
+      have h2 : mu src st0 = 2 * (src.size - st0.off) + (if st0.insertSemi = true then 1 else 0) + 2 := by
+        unfold mu; simp [hu]
+      rw [h2]; split <;> omega
     · intro t htt
       cases htt
-      refine ⟨Nat.le_refl _, by rw [hf1]; unfold frontier; omega, by rw [hf1, hfe], ?_, ?_⟩
-      · intro i h1 h2; unfold frontier at h1; omega
-      · rw [hf1]
-        apply TokOK.exact (Or.inr (Or.inr (Or.inr (Or.inr (Or.inr (Or.inl rfl)))))) (by simp only; unfold frontier; omega)
-        simp only
-        unfold frontier
+      refine ⟨by rw [hf0]; exact Nat.le_refl _, by simp only; omega, by rw [hfe], ?_, ?_⟩
+      · intro i h1 h2; rw [hf0] at h1; simp only at h2; omega
+      · apply TokOK.exact (Or.inr (Or.inr (Or.inr (Or.inr (Or.inr (Or.inl rfl)))))) (by simp only; omega)
         exact hg.unit
 
 end GopModel.Scan
